@@ -172,6 +172,16 @@ def run(F, R, tier):
         fb = [n for n in io[0]["_nodes"] if n.get("k") == "MethodCall" and n["name"] == "unwrap_or" and peel(n["args"][0]).get("v") is False]
         R.ob("C11-e", "a parameter is optional exactly from the start of the trailing run on", ok and len(fb) == 1, "is_optional_at_index compares `%s`" % (expr_text(cmpn[0]) if cmpn else "?"), io[0]["file"])
 
+    # `p?: T` before a required parameter becomes `p: T | undefined`: both halves happen
+    co = F.body("fast_check::transform::convert_optional_ident_to_nullable_type")
+    p0 = co["body"]["params"][0].get("lid")
+    opt = [n for n in co["_nodes"] if n["k"] == "Assign" and field_of(n["l"]) == "optional" and peel(n["r"]).get("v") is False and peel_value(peel(n["l"]).get("e", {})).get("lid") == p0]
+    bad, _ = must_pass(F, co["body"]["value"], lambda n: n in opt)
+    R.ob("C11-e", "the converted parameter is no longer marked optional", len(opt) == 1 and not bad, "convert_optional_ident_to_nullable_type leaves `optional` set: the output would be `p?: T | undefined` before a required parameter, which is not valid TypeScript", co["file"])
+    un = [n for n in co["_nodes"] if n["k"] == "Struct" and (n.get("adt") or "").endswith("TsUnionType")]
+    ok = len(un) == 1 and any((ctor_of(x) or "").endswith("TsKeywordTypeKind::TsUndefinedKeyword") for x in walk(un[0])) and any(x.get("k") == "Field" and x["field"] == "type_ann" for x in walk(un[0]))
+    R.ob("C11-e", "its type becomes the union of the written type and `undefined`", ok, "union construction changed", co["file"])
+
     # ---------------- C11-f ------------------------------------------------
     # filtering by public range is not skippable: a `retain(|x| public_ranges.contains(..))`
     # is passed on every non-error path of the code that owns it
